@@ -1,7 +1,7 @@
 /-
   C10: concrete witnesses (non-vacuity of the hypotheses, pinned variants).
 -/
-import Gotree.Lemmas.C10Oracle
+import Gotree.Lemmas.C10Rot
 
 namespace Gotree.C10
 open Gotree
@@ -45,6 +45,18 @@ def wBoot6r : T :=
 def wRef6r : T :=
   wN [(wE 0, wN [(wE 1, T.leaf "a"), (wE 2, T.leaf "b")]),
       (wE 3, wN [(wE 4, wN [(wE 5, T.leaf "c"), (wE 6, T.leaf "d"), (wE 7, T.leaf "e")]), (wE 8, T.leaf "f")])]
+
+/-- `(f,(b,a),(c,d,e));` — `wRef6` with the children of the root and of the node `(a,b)` reordered -/
+def wRef6rot : T :=
+  wN [(wE 7, T.leaf "f"), (wE 0, wN [(wE 2, T.leaf "b"), (wE 1, T.leaf "a")]),
+      (wE 3, wN [(wE 4, T.leaf "c"), (wE 5, T.leaf "d"), (wE 6, T.leaf "e")])]
+
+theorem wRef6_rot : RotT wRef6 wRef6rot :=
+  ⟨rfl, [(wE 0, wN [(wE 2, T.leaf "b"), (wE 1, T.leaf "a")]),
+         (wE 3, wN [(wE 4, T.leaf "c"), (wE 5, T.leaf "d"), (wE 6, T.leaf "e")]), (wE 7, T.leaf "f")],
+    ⟨rfl, ⟨rfl, _, rotK_refl _, List.Perm.swap _ _ _⟩, rfl, rotT_refl _, rfl, rotT_refl _, trivial⟩,
+    (List.perm_append_comm (l₁ := [(wE 0, wN [(wE 2, T.leaf "b"), (wE 1, T.leaf "a")]),
+         (wE 3, wN [(wE 4, T.leaf "c"), (wE 5, T.leaf "d"), (wE 6, T.leaf "e")])]) (l₂ := [(wE 7, T.leaf "f")]))⟩
 
 theorem hypOK_reference {r r' : T} {bs : List T} (h : hypOK r bs = true) (hr' : treeOK r' = true)
     (hT : sameTaxa r r' = true) : hypOK r' bs = true := by
